@@ -12,7 +12,7 @@ import (
 func init() {
 	register(&propDef{
 		ID:          "C12",
-		Explanation: "Decides, for the per-context registries of package templ and the generator's hoisting: R1 every `already rendered?` query is a check-then-record — on the not-yet-rendered side the paired record call follows with the same key, and the emission of the script/class/once body sits on that side only; R2 the registry methods touch only fields of their receiver (no package-level state), and the registry lives in the context value created per InitializeContext; R3 the two type switches over class containers agree: every container type from which the class-NAME switch extracts a component class has an acting case in the CSS-RULE switch, and every acting case of the rule switch has a case in the name switch (otherwise a class is named without its rule, or ruled under the unknown-type name); R4 on every emission path of an element writer, the calls that emit RenderCSSItems / RenderScriptItems precede the element's `<name` literal (GEM); R5 the CSS middleware records every registered class in the context it passes to the next handler and serves them from the stylesheet endpoint. R6 the map fields of the per-render state are only assigned freshly made maps (never an existing map, which would be shared between requests); R7 the once-handle registry is keyed by the handle's identity (its pointer), not by a field that only the constructor sets. R8 a render has one state object (stored by InitializeContext only, never copied by value), so marks are seen by the whole render. R9 the collector of script definitions and the attribute writer hand the event-handler predicate the attribute name in the same form. NOT decided: counts/positions in concrete rendered documents.",
+		Explanation: "Decides, for the per-context registries of package templ and the generator's hoisting: R1 every `already rendered?` query is a check-then-record — on the not-yet-rendered side the paired record call follows with the same key, and the emission of the script/class/once body sits on that side only; R2 the registry methods touch only fields of their receiver (no package-level state), and the registry lives in the context value created per InitializeContext; R3 the two type switches over class containers agree: every container type from which the class-NAME switch extracts a component class has an acting case in the CSS-RULE switch, and every acting case of the rule switch has a case in the name switch (otherwise a class is named without its rule, or ruled under the unknown-type name); R4 on every emission path of an element writer, the calls that emit RenderCSSItems / RenderScriptItems precede the element's `<name` literal (GEM); R5 the CSS middleware records every registered class in the context it passes to the next handler and serves them from the stylesheet endpoint. R6 the map fields of the per-render state are only assigned freshly made maps (never an existing map, which would be shared between requests); R7 the once-handle registry is keyed by the handle's identity (its pointer), not by a field that only the constructor sets. R8 a render has one state object (stored by InitializeContext only, never copied by value), so marks are seen by the whole render. R9 the collector of script definitions and the attribute writer hand the event-handler predicate the attribute name in the same form. R10 every element emitter of the generator that hands an attribute list to the attribute emitter has handed the same list to the script collector first on every path (dominance), and the collector looks into both arms of conditional attributes. NOT decided: counts/positions in concrete rendered documents.",
 		Assumptions: []string{"map membership is the only state of the registry"},
 		Trusted:     []string{"go/types", "go/parser", "x/tools go/packages, go/cfg"},
 		Run:         runC12,
@@ -20,11 +20,12 @@ func init() {
 }
 
 func runC12(c *Ctx) {
-	c.load(".", "./generator")
+	c.load(".", "./generator", "./parser/v2")
 	renderStateMapsFresh(c, "C12.R6")
 	onceRegistryKey(c, "C12.R7")
 	renderStateSingle(c, "C12.R8")
 	scriptAttributeSitesAgree(c, "C12.R9")
+	scriptsCollectedBeforeAttributes(c, "C12.R10")
 	p := c.pkg(".")
 	info := p.TypesInfo
 
@@ -490,4 +491,142 @@ func scriptAttributeSitesAgree(c *Ctx, rule string) {
 	sort.Strings(desc)
 	c.check(len(forms) <= 1 && n >= 2, rule, pkgGenerator+"."+pred.Name()+"|call-sites-pass-the-name-in-one-form", c.pos(pred.Pos()), fmt.Sprintf("%d call sites, one form (%s)", n, strings.Join(desc, "; ")),
 		fmt.Sprintf("the call sites of %s hand it the attribute name in different forms (%s): for a name not written in lower case (ONCLICK, onClick) one site treats the attribute as an event handler and the other does not, so the page contains the handler call without the script definition (or the definition without the call)", pred.Name(), strings.Join(desc, "; ")))
+}
+
+// scriptsCollectedBeforeAttributes: C12.R10 — sibling agreement between the element emitters. The attribute emitter
+// (the function that type-switches over every attribute kind of a []parser.Attribute) writes `on*` attributes as calls
+// of script templates; the function definitions those calls need are emitted by the script collector (the function that
+// emits templ.RenderScriptItems for the same list). Every emitter of an element kind that hands its attribute list to
+// the attribute emitter must therefore have handed that same list to the collector first, on every path; otherwise the
+// element's on* attribute calls a function that was never written to the page ("at or before its first use").
+func scriptsCollectedBeforeAttributes(c *Ctx, rule string) {
+	gp := c.pkg("generator")
+	info := gp.TypesInfo
+	attrT, _ := c.pkg("parser/v2").Types.Scope().Lookup("Attribute").(*types.TypeName)
+	condT, _ := c.pkg("parser/v2").Types.Scope().Lookup("ConditionalAttribute").(*types.TypeName)
+	if attrT == nil || condT == nil {
+		c.viol(rule, "anchor-lost:parser.Attribute", "", "parser.Attribute / parser.ConditionalAttribute not found")
+		return
+	}
+	isAttrList := func(t types.Type) bool {
+		sl, ok := t.(*types.Slice)
+		return ok && types.Identical(sl.Elem(), attrT.Type())
+	}
+	listParam := func(fd *ast.FuncDecl) int {
+		obj, _ := info.Defs[fd.Name].(*types.Func)
+		if obj == nil {
+			return -1
+		}
+		sig := obj.Type().(*types.Signature)
+		for i := 0; i < sig.Params().Len(); i++ {
+			if isAttrList(sig.Params().At(i).Type()) {
+				return i
+			}
+		}
+		return -1
+	}
+	var collector, emitter *ast.FuncDecl
+	for _, fd := range allFuncDecls(gp) {
+		if fd.Body == nil || listParam(fd) < 0 {
+			continue
+		}
+		ast.Inspect(fd.Body, func(n ast.Node) bool {
+			switch x := n.(type) {
+			case *ast.BasicLit:
+				if x.Kind == token.STRING && strings.Contains(x.Value, "RenderScriptItems(") {
+					collector = fd
+				}
+			case *ast.TypeSwitchStmt:
+				if len(x.Body.List) >= 4 {
+					emitter = fd
+				}
+			}
+			return true
+		})
+	}
+	if collector == nil || emitter == nil || collector == emitter {
+		c.viol(rule, "anchor-lost:script-collector-or-attribute-emitter", "", "the generator's script collector (emits templ.RenderScriptItems for an attribute list) or its attribute emitter (type switch over the attribute kinds) was not found")
+		return
+	}
+	// the collector looks into both arms of conditional attributes (so the conditional-attribute writer needs no collector of its own)
+	recurses := map[string]bool{}
+	var visit func(fd *ast.FuncDecl, depth int)
+	seenFd := map[*ast.FuncDecl]bool{}
+	byObj := map[types.Object]*ast.FuncDecl{}
+	for _, fd := range allFuncDecls(gp) {
+		byObj[info.Defs[fd.Name]] = fd
+	}
+	visit = func(fd *ast.FuncDecl, depth int) {
+		if fd == nil || seenFd[fd] || depth > 4 {
+			return
+		}
+		seenFd[fd] = true
+		ast.Inspect(fd.Body, func(n ast.Node) bool {
+			switch x := n.(type) {
+			case *ast.SelectorExpr:
+				if t := info.TypeOf(x.X); t != nil && types.Identical(t, condT.Type()) {
+					recurses[x.Sel.Name] = true
+				}
+			case *ast.CallExpr:
+				if fn := calleeOf(info, x); fn != nil {
+					visit(byObj[fn], depth+1)
+				}
+			}
+			return true
+		})
+	}
+	visit(collector, 0)
+	c.check(recurses["Then"] && recurses["Else"], rule, funcKey(gp, collector)+"|looks-into-both-arms-of-conditional-attributes", c.pos(collector.Pos()), "the collector reads ConditionalAttribute.Then and .Else",
+		"the script collector no longer looks into both arms of a conditional attribute: an on* attribute inside `if … { onclick={ s() } }` calls a script that was never emitted")
+	emObj := info.Defs[emitter.Name]
+	colObj := info.Defs[collector.Name]
+	ei, ci := listParam(emitter), listParam(collector)
+	n := 0
+	for _, fd := range allFuncDecls(gp) {
+		if fd.Body == nil || fd == emitter {
+			continue
+		}
+		var emits, collects []*ast.CallExpr
+		ast.Inspect(fd.Body, func(x ast.Node) bool {
+			if call, ok := x.(*ast.CallExpr); ok {
+				switch types.Object(calleeOf(info, call)) {
+				case emObj:
+					emits = append(emits, call)
+				case colObj:
+					collects = append(collects, call)
+				}
+			}
+			return true
+		})
+		if len(emits) == 0 {
+			continue
+		}
+		fc := newFnCFG(fd.Body, info)
+		ord := 0
+		for _, em := range emits {
+			if ei >= len(em.Args) {
+				continue
+			}
+			arg := em.Args[ei]
+			// an arm of a conditional attribute: covered by the enclosing element's collector (checked above)
+			if se, ok := ast.Unparen(arg).(*ast.SelectorExpr); ok {
+				if t := info.TypeOf(se.X); t != nil && types.Identical(t, condT.Type()) {
+					continue
+				}
+			}
+			ord++
+			n++
+			want := types.ExprString(arg)
+			ok := false
+			for _, col := range collects {
+				if ci < len(col.Args) && types.ExprString(col.Args[ci]) == want && fc.dominates(col, em) {
+					ok = true
+				}
+			}
+			c.check(ok, rule, fmt.Sprintf("%s|attributes#%d|scripts-collected-first", funcKey(gp, fd), ord), c.pos(em.Pos()), "the same attribute list went to the script collector on every path to here",
+				fmt.Sprintf("%s writes the attributes %s with %s but has not handed that list to %s first (on every path): an on* / hx-on: attribute of this element kind renders a call of a script template whose function definition is never emitted — the other element emitters all collect scripts first", fd.Name.Name, want, emitter.Name.Name, collector.Name.Name))
+		}
+	}
+	c.count("attribute_emitter_call_sites", n)
+	c.floor(rule, 4)
 }
